@@ -378,7 +378,7 @@ type wsUpstream struct {
 }
 
 func newWSUpstream() *wsUpstream {
-	ln, err := net.Listen("tcp", "127.0.0.1:0")
+	ln, err := hx.Listen("tcp", "127.0.0.1:0")
 	if err != nil {
 		panic(err)
 	}
